@@ -464,6 +464,42 @@ def atomic_sites(rel):
     return sites
 
 
+def rust_arith(expr, names):
+    """a usize arithmetic expression over the given names (`v.len()` is `len`) as a Lean Nat term"""
+    e = expr.strip().replace("v.len()", "len")
+    toks = re.findall(r"[A-Za-z_][A-Za-z_0-9]*|\d+|[-+*/()]", e)
+    if "".join(toks) != re.sub(r"\s+", "", e):
+        raise TranslateError(f"par_sort.rs: cannot translate the expression `{expr}`")
+    for t in toks:
+        if re.match(r"[A-Za-z_]", t) and t not in names:
+            raise TranslateError(f"par_sort.rs: unknown name `{t}` in `{expr}`")
+    return " ".join(toks)
+
+
+def heapsort_shape(psrc):
+    """the loop ranges and the child arithmetic of `heapsort`, as Lean definitions"""
+    p = strip_comments(psrc)
+    m = re.search(r"fn heapsort<T, F>\(v: &mut \[T\], is_less: &F\)(.*?)\n\}\n", p, re.S)
+    if not m:
+        raise TranslateError("par_sort.rs: heapsort not found")
+    body = m.group(1)
+    child = re.search(r"let mut child = ([^;]+);\s*if child >= v\.len\(\) \{\s*break;\s*\}\s*"
+                      r"if child \+ 1 < v\.len\(\) && is_less\(&v\[child\], &v\[child \+ 1\]\) \{\s*child \+= 1;\s*\}\s*"
+                      r"if !is_less\(&v\[node\], &v\[child\]\) \{\s*break;\s*\}\s*v\.swap\(node, child\);\s*node = child;", body)
+    build = re.search(r"for i in \(([^.]+?)\.\.([^)]*(?:\([^)]*\))?[^)]*)\)\.rev\(\) \{\s*sift_down\(v, i\);\s*\}", body)
+    pop = re.search(r"for i in \(([^.]+?)\.\.([^)]*(?:\([^)]*\))?[^)]*)\)\.rev\(\) \{\s*v\.swap\(0, i\);\s*sift_down\(&mut v\[\.\.i\], 0\);\s*\}", body)
+    if not (child and build and pop):
+        raise TranslateError("par_sort.rs: heapsort changed shape (sift_down / build loop / pop loop)")
+    return ["/-- `heapsort`: first child of a heap node -/",
+            f"def PS_heapChild (node : Nat) : Nat := {rust_arith(child.group(1), ['node'])}",
+            "/-- `heapsort`: the build loop visits the nodes `[PS_heapBuildLo len, PS_heapBuildHi len)` in descending order -/",
+            f"def PS_heapBuildLo (len : Nat) : Nat := {rust_arith(build.group(1), ['len'])}",
+            f"def PS_heapBuildHi (len : Nat) : Nat := {rust_arith(build.group(2), ['len'])}",
+            "/-- `heapsort`: the pop loop visits the positions `[PS_heapPopLo len, PS_heapPopHi len)` in descending order -/",
+            f"def PS_heapPopLo (len : Nat) : Nat := {rust_arith(pop.group(1), ['len'])}",
+            f"def PS_heapPopHi (len : Nat) : Nat := {rust_arith(pop.group(2), ['len'])}", ""]
+
+
 def gen_boxcar():
     bsrc = read("src/boxcar.rs")
     cs, allc = consts_of(bsrc, ["SKIP", "SKIP_BUCKET", "BUCKETS", "MAX_ENTRIES"])
@@ -513,6 +549,7 @@ def gen_boxcar():
     for n_ in pnames:
         out.append(f"def PS_{n_} : Nat := {pc[n_]}")
     out.append("")
+    out += heapsort_shape(psrc)
     out.append("/-- memory orderings -/")
     out.append("inductive MemOrd | relaxed | acquire | release | acqRel | seqCst")
     out.append("deriving DecidableEq, Repr")
